@@ -216,7 +216,7 @@ CHECKS = {
     ),
     "C14": dict(
         level="exploration",
-        required_probes=['multi_pass_rewind', 'frame_boundary_on_time_mark', 'multi_frame_run_checked', 'cutoff_reached', 'lm_vs_projdata_compared', 'several_cache_files', 'cache_files_reused', 'cache_write_error_reported_by_set_up', 'source_ended_inside_run'],
+        required_probes=['multi_pass_rewind', 'frame_boundary_on_time_mark', 'multi_frame_run_checked', 'cutoff_reached', 'lm_vs_projdata_compared', 'several_cache_files', 'cache_files_reused', 'cache_write_error_reported_by_set_up', 'source_ended_inside_run', 'reuse_cutoff_request', 'reuse_frame_request'],
         parts=[dict(harness="chk_C14", variant="seq", src="checks/chk_C14.cpp",
                     runs=dict(quick=6000, thorough=300000), wall_cap=dict(quick=110, thorough=2400)),
                dict(harness="chk_C14", variant="omp", src="checks/chk_C14.cpp",
@@ -226,7 +226,8 @@ CHECKS = {
               "at irregular intervals, prompts and delayeds on random detector pairs / TOF indices incl. out-of-range ones, events before the "
               "first time mark, bursts without time marks) and one class: histogram (every frame of a drawn partition, boundaries preferably "
               "exactly on time marks, with all segments in memory and with drawn num_segments_in_memory / num_TOF_bins_in_memory, the whole "
-              "interval, one multi-frame run writing files); eof (the source ends after record k); cutoff (num_events_to_store); "
+              "interval, one multi-frame run writing files); eof (the source ends after record k); cutoff (num_events_to_store); reuse (one "
+              "converter object serves 2..4 requests in a row: frames, other batch sizes, prompt/delayed settings, cut-offs); "
               "lm_gradient (list-mode objective function with a small event cache -> several cache files, optional second object re-using "
               "them, vs the projection-data objective function of the histogram: sensitivity, gradient, gradient+sensitivity, Hessian x "
               "vector); lm_cache_write_error (ENOSPC / EIO at a drawn write call while the event cache is written: reported by set_up or by "
